@@ -803,6 +803,8 @@ fn main() {
                     (NftSeq, 0, 3, 2),
                     (Wrapper, 3, 3, 2),
                     (Nft, 3, 3, 2),
+                    // amounts at the top of the i128 range (units and votes are u128; nothing may be narrower)
+                    (Wrapper, 2, 2, 3),
                 ]
             };
             for (flavour, seed, depth, wall) in plan {
